@@ -34,7 +34,7 @@ class C02:
         nodes = sorted({x for op in c["ops"] for x in ([op[1], op[2]] if op[0] == "add" else ([op[1]] if op[0] in ("node", "attr") else (op[1] if op[0] != "addfrom" else [y for p in op[1] for y in p])))})
         nb = []
         for _ in range(2):
-            k = rng.randint(0, min(3, len(nodes)))
+            k = rng.choice([0, 1, 1, 2, 3]); k = min(k, len(nodes))
             s = rng.sample(nodes, k) if nodes else []
             if rng.random() < 0.4:
                 s.append(77)
@@ -71,8 +71,6 @@ class C02:
                 q = outs[i]; i += 1
                 if oracles.is_err(q):
                     fails.append(F("C02.raised", t=t, nbunch=nb, got=q)); continue
-                if nb is not None and len(nb) == 0:
-                    continue      # an empty nbunch is indistinguishable from "all nodes" for several entry points
                 fails += oracles.c02(bool(case["cls"]), q, pres, t, set(nodes), attrs, nb, dump["ids"])
         return fails
 
